@@ -28,26 +28,28 @@ import (
 
 type verifC18Groups struct {
 	schema.Group
-	g *commonv1.Group
+	g map[string]*commonv1.Group
 }
 
 func (v *verifC18Groups) GetGroup(_ context.Context, group string) (*commonv1.Group, error) {
-	if group != v.g.Metadata.Name {
+	g, ok := v.g[group]
+	if !ok {
 		return nil, fmt.Errorf("group %s not found", group)
 	}
-	return v.g, nil
+	return g, nil
 }
 
 type verifC18Props struct {
 	schema.Property
-	p *databasev1.Property
+	p map[string]*databasev1.Property // by group/name
 }
 
 func (v *verifC18Props) GetProperty(_ context.Context, md *commonv1.Metadata) (*databasev1.Property, error) {
-	if md.Group != v.p.Metadata.Group || md.Name != v.p.Metadata.Name {
+	p, ok := v.p[md.Group+"/"+md.Name]
+	if !ok {
 		return nil, fmt.Errorf("property schema %s/%s not found", md.Group, md.Name)
 	}
-	return v.p, nil
+	return p, nil
 }
 
 type verifC18Repo struct {
@@ -76,23 +78,33 @@ type VerifC18Server struct {
 	ps *propertyServer
 }
 
-// NewVerifC18Server builds the server: one group with `len(nodes)` copies and 1 shard, one property schema with
-// string tags `tags`, replica i of the shard located on nodes[i].
-func NewVerifC18Server(pipeline queue.Client, nodes []string, group, name string, tags []string) *VerifC18Server {
-	g := &commonv1.Group{
-		Metadata:     &commonv1.Metadata{Name: group},
-		Catalog:      commonv1.Catalog_CATALOG_PROPERTY,
-		ResourceOpts: &commonv1.ResourceOpts{ShardNum: 1, Replicas: uint32(len(nodes) - 1)},
+// NewVerifC18Server builds the server: every group has `len(nodes)` copies and 1 shard, every (group, name) a
+// property schema with string tags `tags`; replica i of a shard is located on nodes[i].
+func NewVerifC18Server(pipeline queue.Client, nodes []string, groups, names, tags []string) *VerifC18Server {
+	gm := map[string]*commonv1.Group{}
+	pm := map[string]*databasev1.Property{}
+	ro := map[string]*commonv1.ResourceOpts{}
+	for _, group := range groups {
+		g := &commonv1.Group{
+			Metadata:     &commonv1.Metadata{Name: group},
+			Catalog:      commonv1.Catalog_CATALOG_PROPERTY,
+			ResourceOpts: &commonv1.ResourceOpts{ShardNum: 1, Replicas: uint32(len(nodes) - 1)},
+		}
+		gm[group] = g
+		ro[group] = g.ResourceOpts
+		for _, name := range names {
+			ps := &databasev1.Property{Metadata: &commonv1.Metadata{Group: group, Name: name}}
+			for _, t := range tags {
+				ps.Tags = append(ps.Tags, &databasev1.TagSpec{Name: t, Type: databasev1.TagType_TAG_TYPE_STRING})
+			}
+			pm[group+"/"+name] = ps
+		}
 	}
-	ps := &databasev1.Property{Metadata: &commonv1.Metadata{Group: group, Name: name}}
-	for _, t := range tags {
-		ps.Tags = append(ps.Tags, &databasev1.TagSpec{Name: t, Type: databasev1.TagType_TAG_TYPE_STRING})
-	}
-	repo := &verifC18Repo{groups: &verifC18Groups{g: g}, props: &verifC18Props{p: ps}}
+	repo := &verifC18Repo{groups: &verifC18Groups{g: gm}, props: &verifC18Props{p: pm}}
 	nr := &verifC18Nodes{nodes: nodes}
 	gr := &groupRepo{
 		log:          logger.GetLogger("verif-c18"),
-		resourceOpts: map[string]*commonv1.ResourceOpts{group: g.ResourceOpts},
+		resourceOpts: ro,
 		inflight:     make(map[string]*groupInflight),
 	}
 	srv := &propertyServer{
